@@ -69,6 +69,10 @@ def run(ctx):
         for t2 in TEXTS[:: (9 if ctx.quick else 2)]:
             cases.append((5, t, t2, base + [["op", "with_query", ["map", [t, t2]]]]))
             cases.append((5, t, t2, [["push", build(query=["map", [t, t2]])]]))
+    code = {"user": 0, "password": 1, "path": 2, "name": 3, "fragment": 4}
+    for comp, t, prog in suites.reapply_cases(base, TEXTS + suites.SELF_TEXTS):
+        if comp in code:
+            cases.append((code[comp], t, "", prog))
     ro = suites.observe(ctx, "C06-readback", [c[3] for c in cases], profile=2)
     suites.apply_pred(ctx, "C06-readback", "c06_pred", ro,
                       lambda k, i: " ".join([enc(2), enc(cases[i][0]), enc(cases[i][1]), enc(cases[i][2]), ro[k][i]]),
